@@ -27,7 +27,10 @@ ValidBs(bs) == bs >= 32 /\ bs <= 32767
 ValidRate(r) == r >= 1 /\ r <= 96000
 
 \* ---------------------------------------------------------------- stream-level entry point
-\* c = [ch, bps, rate, bs, excess (a sample just outside the width), bdel (bytes per sample used by a
+\* c = [ch, bps, rate, bs, excess (a sample just outside the width), where (WHICH sample that is: 0 = none,
+\*      1 first, 2 second interleaved value, 3 middle, 4 the very last value (last channel of the final short
+\*      block), 5 last channel one step earlier, 6 first channel of the last step; odd = just above the maximum,
+\*      even = just below the minimum - the verdict does not depend on it), bdel (bytes per sample used by a
 \*      byte-delivering source, 0 = integer delivery)]
 \* (a sample outside the width cannot be expressed in packed bytes of exactly that width: with byte
 \*  delivery of ceil(bps/8) = bps/8 bytes the flag has no effect)
@@ -40,8 +43,8 @@ StreamVerdict(c) ==
   ELSE "ok"
 
 \* ---------------------------------------------------------------- frame-level entry point
-\* c = [ch, bps, bs, fnum, excess]: FrameBuf::with_size(ch, bs), one full fill, StreamInfo::new(44100, ch, bps),
-\* encode_fixed_size_frame(.., fnum, ..)
+\* c = [ch, bps, bs, fnum, excess, where, partial]: FrameBuf::with_size(ch, bs), one fill (of bs - 5 samples when
+\* `partial`: a final short block), StreamInfo::new(44100, ch, bps), encode_fixed_size_frame(.., fnum, ..)
 FrameVerdict(c) ==
   IF ~ValidCh(c.ch) \/ ~ValidBs(c.bs) \/ c.excess THEN "err"
   ELSE IF c.bps \notin (Widths \cup SideWidths) THEN "err"
